@@ -18,6 +18,7 @@ from fst.fst_core import _params_offset
 
 PROPERTY = 'C01'
 THOROUGH_SCALE = 2.0
+THOROUGH_STRIDE = 3        # thorough tier = all quick cells + every 3th thorough-only cell (sized to run end-to-end; '--cells' reaches the others)
 
 
 def _mk_putsrc(ln_c, end_ln_c, nput):
